@@ -749,10 +749,13 @@ class FuncAnalysis:
                 self.sink('S-mutate', target, 'attribute store on a document-selected object')
         elif isinstance(target, ast.Subscript):
             r = self.ev(target.value)
-            self.ev(target.slice)
+            kv = self.ev(target.slice)
             if r.has('dyn', 'top'):
                 self.sink('S-dyncall', target, 'item store on a document-selected object (calls its __setitem__)')
             self.store_elem(target.value, av)
+            if r.has('dict') and not isinstance(target.slice, ast.Slice):
+                # the key becomes part of the dict as well: its type belongs to what the container holds
+                self.store_elem(target.value, kv)
         elif isinstance(target, ast.Starred):
             self.assign(target.value, av, None)
 
@@ -991,6 +994,15 @@ class FuncAnalysis:
     def binop(self, l, r, node):
         op = getattr(node, 'op', None)
         if isinstance(op, ast.Mod) and l.tags and l.tags <= {'str', 'bytes'}:
+            right = getattr(node, 'right', None)
+            operands = list(right.elts) if isinstance(right, ast.Tuple) else [right] if right is not None else []
+            for opnd in operands:
+                # the name attributes of modules / classes are strings by the data model: formatting them runs no user code
+                if isinstance(opnd, ast.Attribute) and opnd.attr in ('__name__', '__qualname__', '__module__'):
+                    continue
+                if isinstance(opnd, ast.AST) and self.ev(opnd).has('dyn'):
+                    self.sink('S-dyncall', node, 'formatting a document-selected object into a string (calls its __repr__ / __str__)')
+                    break
             return T('str') if 'str' in l.tags else T('bytes')
         if l.has('dyn', 'top') or r.has('dyn', 'top'):
             if l.has('dyn') or r.has('dyn'):
